@@ -73,6 +73,22 @@ static ldb_dbiter_t *vp_di;
 static int vp_cur;
 static int vp_child_status;
 
+/* VP_OS<k>: set of operations allowed at step k (bit i = VP_OP_* i; 31 = all).
+   Excluded operations are removed from the program of that step. */
+#ifndef VP_OS0
+#define VP_OS0 31
+#endif
+#ifndef VP_OS1
+#define VP_OS1 31
+#endif
+#ifndef VP_OS2
+#define VP_OS2 31
+#endif
+#ifndef VP_OS3
+#define VP_OS3 31
+#endif
+static const int vp_os[8] = { VP_OS0, VP_OS1, VP_OS2, VP_OS3, 31, 31, 31, 31 };
+
 static void
 vp_check(void) {
   int valid = ldb_dbiter_valid(vp_di);
@@ -104,37 +120,35 @@ vp_check(void) {
 }
 
 static void
-vp_apply(int op, const uint8_t *t) {
+vp_apply(int op, int mask, const uint8_t *t) {
   ldb_slice_t target;
 
-  switch (op) {
-    case VP_OP_FIRST:
+  /* mask (a constant per step) removes the excluded operations from the
+     program, not only from the models */
+  if ((mask & (1 << VP_OP_FIRST)) && op == VP_OP_FIRST) {
       ldb_dbiter_first(vp_di);
       vp_cur = vp_ref_first(&vp_ref);
-      break;
-    case VP_OP_LAST:
+  } else if ((mask & (1 << VP_OP_LAST)) && op == VP_OP_LAST) {
       ldb_dbiter_last(vp_di);
       vp_cur = vp_ref_last(&vp_ref);
-      break;
-    case VP_OP_SEEK:
+  } else if ((mask & (1 << VP_OP_SEEK)) && op == VP_OP_SEEK) {
       target.data = (uint8_t *)t;
       target.size = 1;
       target.alloc = 0;
       ldb_dbiter_seek(vp_di, &target);
       vp_cur = vp_ref_seek_ge(&vp_ref, t, 1);
-      break;
-    case VP_OP_NEXT:
+  } else if ((mask & (1 << VP_OP_NEXT)) && op == VP_OP_NEXT) {
       if (vp_cur < 0)
         return; /* REQUIRES: valid */
       ldb_dbiter_next(vp_di);
       vp_cur = vp_ref_next(&vp_ref, vp_cur);
-      break;
-    default:
+  } else if ((mask & (1 << VP_OP_PREV)) && op == VP_OP_PREV) {
       if (vp_cur < 0)
         return;
       ldb_dbiter_prev(vp_di);
       vp_cur = vp_ref_prev(&vp_ref, vp_cur);
-      break;
+  } else {
+    return;
   }
 
   vp_check();
@@ -204,8 +218,9 @@ harness(void) {
     for (k = 0; k < VP_K; k++) {
       op = vp_u8();
       VP_ASSUME(op <= VP_OP_PREV);
+      VP_ASSUME((vp_os[k] >> op) & 1);
       t[0] = vp_u8();
-      vp_apply(op, t);
+      vp_apply(op, vp_os[k], t);
     }
 
     if (vp_cur >= 0) {
@@ -227,12 +242,12 @@ harness(void) {
   {
     int k, count = 0;
 
-    vp_apply(VP_OP_FIRST, NULL);
+    vp_apply(VP_OP_FIRST, 31, NULL);
 
     for (k = 0; k < VP_N; k++) {
       if (vp_cur >= 0) {
         count++;
-        vp_apply(VP_OP_NEXT, NULL);
+        vp_apply(VP_OP_NEXT, 31, NULL);
       }
     }
 
@@ -240,12 +255,12 @@ harness(void) {
     VP_ASSERT(count == nvis, "forward scan yields every visible entry exactly once");
 
     count = 0;
-    vp_apply(VP_OP_LAST, NULL);
+    vp_apply(VP_OP_LAST, 31, NULL);
 
     for (k = 0; k < VP_N; k++) {
       if (vp_cur >= 0) {
         count++;
-        vp_apply(VP_OP_PREV, NULL);
+        vp_apply(VP_OP_PREV, 31, NULL);
       }
     }
 
